@@ -1,5 +1,6 @@
 import IrefVerif.Lemmas.NormList
 import IrefVerif.Lemmas.SymAppend
+import IrefVerif.Lemmas.RemoveDots
 
 /-!
 # The normalized copy realises the §5.2.4 target in every case, and is idempotent
@@ -26,6 +27,22 @@ theorem is_empty_of_nsegs_nil {fa atStart : Bool} {p : Text} (hp : PathText p) (
   unfold normView
   simp only [normalized_segments_eq p hp, h, joinSegs_eq, joinSlash, List.append_nil]
   split <;> simp [Path.is_empty]
+
+theorem isAbs_pushView_nonempty' (anch fa atStart : Bool) (v s : Text) (hne : Path.is_empty v = false) :
+    isAbs (pushView anch fa atStart v s) = isAbs v := by
+  unfold pushView
+  have hve : v.isEmpty = false := by
+    cases v with
+    | nil => simp [Path.is_empty] at hne
+    | cons c r => rfl
+  simp only [hve, Bool.and_false, Bool.false_eq_true, if_false, hne]
+  split
+  · rename_i h
+    simp only [Bool.and_eq_true, beq_iff_eq] at h
+    rw [h.2]; rfl
+  · cases v with
+    | nil => simp [Path.is_empty] at hne
+    | cons c r => rfl
 
 theorem isAbs_pushView_nonempty (fa atStart : Bool) (v s : Text) (hne : Path.is_empty v = false) :
     isAbs (pushView false fa atStart v s) = isAbs v := by
@@ -123,6 +140,94 @@ theorem nrmCopy_realises (p : Text) (hp : PathText p) :
     · have hd' : dotEnd p = false := by simpa using hd
       simp only [hd', Bool.false_and, Bool.false_eq_true, if_false, List.append_nil]
       exact hr
+
+/-- `normalize`, then the trailing empty segment of a final dot segment, in any context -/
+theorem closeNorm_realises (anch fa atStart : Bool) (p : Text) (hp : PathText p) :
+    realises (if dotEnd p && !Path.is_empty (normView fa atStart p) then pushView anch fa atStart (normView fa atStart p) []
+      else normView fa atStart p) (normTarget p) = true ∧
+    isAbs (if dotEnd p && !Path.is_empty (normView fa atStart p) then pushView anch fa atStart (normView fa atStart p) []
+      else normView fa atStart p) = isAbs p := by
+  obtain ⟨hr, ha⟩ := normView_realises fa atStart p hp
+  unfold normTarget
+  by_cases hc : (dotEnd p && !Path.is_empty (normView fa atStart p)) = true
+  · simp only [hc, if_true]
+    simp only [Bool.and_eq_true, Bool.not_eq_true'] at hc
+    have hne : nsegs p ≠ [] := by
+      intro e
+      have := is_empty_of_nsegs_nil (fa := fa) (atStart := atStart) hp e
+      rw [this] at hc; exact absurd hc.2 (by simp)
+    have hne' : (nsegs p).isEmpty = false := by cases h : nsegs p <;> simp_all
+    simp only [hc.1, hne', Bool.not_false, Bool.and_self, if_true]
+    refine ⟨?_, by rw [isAbs_pushView_nonempty' _ _ _ _ _ hc.2, ha]⟩
+    · have hnd : segDot ∉ nsegs p := nsegsOf_noDot _ _
+      rcases pushView_realises anch fa atStart (normView fa atStart p) [] (by simp) with h | h
+      · -- the literal list of the normalised text is `N` or `. :: N`
+        rcases realises_cases hr with e | e
+        · rw [e] at h; exact h
+        · rw [e] at h
+          rcases realises_cases h with e2 | e2
+          · simp only [realises, Bool.or_eq_true, decide_eq_true_eq, Bool.and_eq_true]
+            right
+            constructor
+            · rw [needsShieldHead_snoc _ hne]
+              simp only [realises, Bool.or_eq_true, decide_eq_true_eq, Bool.and_eq_true] at hr
+              rcases hr with hr | hr
+              · rw [hr] at e
+                have := congrArg List.length e
+                simp at this
+              · exact hr.1
+            · rw [e2]; rfl
+          · -- a second shield in front of `.` is impossible
+            simp only [realises, Bool.or_eq_true, decide_eq_true_eq, Bool.and_eq_true] at h
+            rcases h with h | ⟨h, _⟩
+            · rw [h] at e2
+              have := congrArg List.length e2
+              simp at this
+            · simp [needsShieldHead, segDot, containsColon, cDot, cColon] at h
+      · have hal : alist (normView fa atStart p) = nsegs p := by
+          rcases alist_cases (normView fa atStart p) with e | ⟨r, e1, e2⟩
+          · rcases realises_cases hr with e' | e'
+            · rw [e, e']
+            · -- `. :: N` with a shield-needing `N`: `alist` strips it, so this case is the other one
+              rw [e']  at e
+              unfold alist at e
+              rw [e'] at e
+              simp only [realises, Bool.or_eq_true, decide_eq_true_eq, Bool.and_eq_true] at hr
+              rcases hr with hr | hr
+              · rw [hr] at e'
+                have := congrArg List.length e'
+                simp at this
+              · simp [hr.1] at e
+          · rcases realises_cases hr with e' | e'
+            · rw [e'] at e1
+              cases hN : nsegs p with
+              | nil => exact absurd hN hne
+              | cons a b =>
+                rw [hN] at e1
+                simp only [List.cons.injEq] at e1
+                exact absurd (e1.1 ▸ (hN ▸ List.mem_cons_self : a ∈ nsegs p)) hnd
+            · rw [e'] at e1
+              simp only [List.cons.injEq, true_and] at e1
+              rw [e2, e1]
+        rw [hal] at h
+        exact h
+  · have hc' : (dotEnd p && !Path.is_empty (normView fa atStart p)) = false := by simpa using hc
+    simp only [hc', Bool.false_eq_true, if_false]
+    refine ⟨?_, ha⟩
+    by_cases hd : dotEnd p = true
+    · rw [hd] at hc'
+      have hem : Path.is_empty (normView fa atStart p) = true := by simpa using hc'
+      have hN : nsegs p = [] := by
+        have hs := is_empty_segs hem
+        rcases realises_cases hr with e | e
+        · rw [← e, hs]
+        · rw [hs] at e; cases e
+      simp only [hN, List.isEmpty_nil, Bool.not_true, Bool.and_false, Bool.false_eq_true, if_false, List.append_nil]
+      rw [← hN]; exact hr
+    · have hd' : dotEnd p = false := by simpa using hd
+      simp only [hd', Bool.false_and, Bool.false_eq_true, if_false, List.append_nil]
+      exact hr
+
 
 /-! ## idempotence of the copy -/
 
@@ -346,5 +451,76 @@ theorem pathText_nrmCopy (p : Text) (hp : PathText p) : PathText (nrmCopy p) := 
 /-- **idempotence, self-contained** -/
 theorem nrmCopy_idempotent (p : Text) (hp : PathText p) : nrmCopy (nrmCopy p) = nrmCopy p :=
   nrmCopy_idem p hp (pathText_nrmCopy p hp)
+
+/-! ## `remove_dot_segments` when at least two segments remain -/
+
+/-- with two or more normalised segments the collapse rule of `remove_dot_segments` cannot fire, so
+the text it writes realises the §5.2.4 target — literally or behind the `.` shield — in every
+context: in particular where the RFC's own text would begin with `//` and be read as an authority -/
+theorem rdsView_long (anch fa atStart : Bool) (p : Text) (hp : PathText p) (hlen : 2 ≤ (nsegs p).length) :
+    realises (rdsView anch fa atStart p) (normTarget p) = true ∧ isAbs (rdsView anch fa atStart p) = isAbs p := by
+  have hcl := closeNorm_realises anch fa atStart p hp
+  unfold rdsView
+  simp only []
+  by_cases hc : (dotEnd p && !Path.is_empty (normView fa atStart p)) = true
+  · simp only [hc, if_true] at hcl ⊢
+    exact hcl
+  · have hc' : (dotEnd p && !Path.is_empty (normView fa atStart p)) = false := by simpa using hc
+    simp only [hc', Bool.false_eq_true, if_false] at hcl ⊢
+    have hnot : (normView fa atStart p == [cSlash, cDot, cSlash] || normView fa atStart p == [cDot, cSlash]) = false := by
+      unfold normView
+      simp only [normalized_segments_eq p hp, joinSegs_eq]
+      have hns : ∀ s ∈ nsegs p, cSlash ∉ s := fun s hs => segs_no_slash _ s (nsegsOf_subset _ _ s hs)
+      have hnd : segDot ∉ nsegs p := nsegsOf_noDot _ _
+      generalize nsegs p = N at hlen hns hnd
+      match N, hlen, hns, hnd with
+      | a :: b :: rest, _, hns, hnd =>
+        have hj : joinSlash (a :: b :: rest) = a ++ cSlash :: joinSlash (b :: rest) := rfl
+        have hne : joinSlash (a :: b :: rest) ≠ [] := by rw [hj]; cases a <;> simp
+        have hnds := joinSlash_ne_dotSlash (a :: b :: rest) hns hnd
+        have hrel : Path.is_relative p = !isAbs p := by unfold Path.is_relative; rw [is_absolute_eq]
+        simp only [hrel]
+        generalize hJ : joinSlash (a :: b :: rest) = J at hne hnds
+        by_cases hsh : (a.isEmpty && (!isAbs p || !fa || (a :: b :: rest).length == 1) ||
+            !isAbs p && atStart && Parse.first_segment_contains_colon a) = true
+        · simp only [hsh, if_true]
+          cases habs : isAbs p
+          · -- `./` ++ J
+            simp only [Bool.false_eq_true, if_false, List.nil_append, Bool.or_eq_false_iff, beq_eq_false_iff_ne, ne_eq]
+            constructor
+            · simp [cDot, cSlash]
+            · intro h
+              simp only [List.cons_append, List.nil_append, List.cons.injEq, true_and] at h
+              exact hne h
+          · simp only [if_true, Bool.or_eq_false_iff, beq_eq_false_iff_ne, ne_eq]
+            constructor
+            · intro h
+              simp only [List.cons_append, List.nil_append, List.singleton_append, List.cons.injEq, true_and] at h
+              exact hne h
+            · simp [cDot, cSlash]
+        · have hsh' : (a.isEmpty && (!isAbs p || !fa || (a :: b :: rest).length == 1) ||
+              !isAbs p && atStart && Parse.first_segment_contains_colon a) = false := by simpa using hsh
+          simp only [hsh', Bool.false_eq_true, if_false, List.nil_append]
+          cases habs : isAbs p
+          · -- J alone; its first segment is not empty (else the shield would be there)
+            simp only [Bool.false_eq_true, if_false, List.nil_append, Bool.or_eq_false_iff, beq_eq_false_iff_ne, ne_eq]
+            rw [habs] at hsh'
+            refine ⟨?_, hnds⟩
+            intro h
+            cases a with
+            | nil => simp at hsh'
+            | cons c r =>
+              rw [← hJ, hj] at h
+              simp only [List.cons_append, List.cons.injEq] at h
+              have hc : c ≠ cSlash := fun e => hns (c :: r) List.mem_cons_self (e ▸ List.mem_cons_self)
+              exact hc h.1
+          · simp only [if_true, Bool.or_eq_false_iff, beq_eq_false_iff_ne, ne_eq]
+            constructor
+            · intro h
+              simp only [List.singleton_append, List.cons.injEq, true_and] at h
+              exact hnds h
+            · simp [cDot, cSlash]
+    simp only [hnot, Bool.false_eq_true, if_false]
+    exact hcl
 
 end IrefVerif.Lemmas
